@@ -8,7 +8,8 @@ Code side (hand transcription of writer/pdf_writer/mod.rs, graphics/mod.rs, text
       string is the UTF-16BE code units of the text, four upper-case hex digits each (`showHex`) — a
       character above U+FFFF becomes TWO 2-byte codes (its surrogates);
   `generate_tounicode_cmap_from_font`: used characters ≤ U+FFFF, each mapped to itself, sorted by CID;
-      a run of consecutive CIDs (at most 100 entries) becomes one `1 beginbfrange` block, otherwise the next
+      a run of consecutive CIDs (at most 100 entries, ending before the low byte wraps to 00) becomes one
+      `1 beginbfrange` block, otherwise the next
       (up to) 100 mappings — consecutive or not — become one `beginbfchar` block (`genBlocks`, `renderCMap`);
   `generate_width_array`: (code point, width) sorted by code point, grouped into `c [w]` / `first last w`
       items over consecutive code points of equal width (`genW`); width = ⌊advance·1000/unitsPerEm⌋ (`as u16`);
@@ -48,10 +49,10 @@ inductive Block where
   | chars (l : List Nat)          -- `<c> <c>` lines
   deriving Repr, DecidableEq
 
-/-- the inner `while`: extend the run while the next CID is the successor and fewer than 100 entries
-are in it (`k` = entries after the first) -/
+/-- the inner `while`: extend the run while the next CID is the successor, the destination's low byte
+does not wrap to 00 (§9.10.3) and fewer than 100 entries are in it (`k` = entries after the first) -/
 def takeRun : Nat → Nat → List Nat → Nat × List Nat
-  | last, k, x :: r => if x == last + 1 && k < 99 then takeRun x (k + 1) r else (last, x :: r)
+  | last, k, x :: r => if x == last + 1 && x % 256 != 0 && k < 99 then takeRun x (k + 1) r else (last, x :: r)
   | last, _, [] => (last, [])
 
 /-- the outer `while i < mappings.len()` -/
@@ -62,6 +63,21 @@ def genBlocks : Nat → List Nat → List Block
     let (e, rem) := takeRun c 0 rest
     if e > c then .range c e c :: genBlocks fuel rem
     else .chars ((c :: rest).take 100) :: genBlocks fuel ((c :: rest).drop 100)
+
+/-- the loops as they were before the low-byte condition was added (regression statements only) -/
+def takeRunOld : Nat → Nat → List Nat → Nat × List Nat
+  | last, k, x :: r => if x == last + 1 && k < 99 then takeRunOld x (k + 1) r else (last, x :: r)
+  | last, _, [] => (last, [])
+
+def genBlocksOld : Nat → List Nat → List Block
+  | 0, _ => []
+  | _, [] => []
+  | fuel + 1, c :: rest =>
+    let (e, rem) := takeRunOld c 0 rest
+    if e > c then .range c e c :: genBlocksOld fuel rem
+    else .chars ((c :: rest).take 100) :: genBlocksOld fuel ((c :: rest).drop 100)
+
+def toUnicodeBlocksOld (used : List Nat) : List Block := genBlocksOld (used.length + 1) used
 
 def toUnicodeBlocks (used : List Nat) : List Block := genBlocks (used.length + 1) used
 
